@@ -153,3 +153,88 @@ def load_table(which="locals"):
         except FileNotFoundError:
             _cache[which] = {}
     return _cache[which]
+
+
+# ---------------------------------------------------------------------------------------------------------------------
+# attribute names (fields stored on self): the same idea one level up
+#
+# rules/tables/attributes.json freezes, per class of the reviewed tree, the fields its methods store on `self` (with the erased
+# shape of the first storing statement) and the whole attribute vocabulary of the package.  When a class stores a field the
+# table does not know and lacks one it knows, and the pairing is unique (one of each, or a unique shape match), every
+# `.unknown` attribute node of the package is renamed to `.missing` - provided the unknown name is new to the package's
+# vocabulary (so it cannot be a library attribute such as `.values`), the missing name no longer occurs anywhere, and neither
+# name occurs as a string constant (getattr / __slots__ / pickled keys would not follow).  A consistent package-wide renaming of
+# an attribute that is only ever accessed by attribute syntax is an alpha-equivalent program.
+
+
+def class_fields(cls_node):
+    """field -> erased shape of the first statement of the class that stores `self.<field> = ...`"""
+    out = {}
+    for m in cls_node.body:
+        if not isinstance(m, (ast.FunctionDef, ast.AsyncFunctionDef)) or not m.args.args:
+            continue
+        me = m.args.args[0].arg
+        for st in ast.walk(m):
+            if isinstance(st, (ast.Assign, ast.AugAssign, ast.AnnAssign)):
+                tg = st.targets if isinstance(st, ast.Assign) else [st.target]
+                for t in tg:
+                    for x in (t.elts if isinstance(t, (ast.Tuple, ast.List)) else [t]):
+                        if isinstance(x, ast.Attribute) and isinstance(x.value, ast.Name) and x.value.id == me and x.attr not in out:
+                            txt = ast.unparse(st)
+                            out[x.attr] = (m.name, txt.replace("." + x.attr, "._")[:200])
+    return out
+
+
+def attribute_vocabulary(trees):
+    voc, strings = set(), set()
+    for t in trees:
+        for n in ast.walk(t):
+            if isinstance(n, ast.Attribute):
+                voc.add(n.attr)
+            elif isinstance(n, ast.Constant) and isinstance(n.value, str) and n.value.isidentifier():
+                strings.add(n.value)
+    return voc, strings
+
+
+def canonicalise_attributes(trees, table):
+    """trees: {module name: ast.Module}; -> [(class, actual, canonical)] (renamed in place, package-wide)"""
+    done = []
+    if not table:
+        return done
+    voc0 = set(table.get("vocabulary", []))
+    voc, strings = attribute_vocabulary(trees.values())
+    pairs = {}
+    for mod, tree in trees.items():
+        ref = table.get("classes", {}).get(mod, {})
+        for c in tree.body:
+            if not isinstance(c, ast.ClassDef) or c.name not in ref:
+                continue
+            canon = ref[c.name]
+            actual = class_fields(c)
+            unknown = sorted(f for f in actual if f not in canon and f not in voc0)
+            missing = sorted(f for f in canon if f not in actual and f not in voc)
+            if not unknown or not missing:
+                continue
+            if len(unknown) == 1 and len(missing) == 1:
+                cand = [(unknown[0], missing[0])]
+            else:
+                cand = []
+                for u in unknown:
+                    ms = [m for m in missing if tuple(canon[m]) == tuple(actual[u])]
+                    if len(ms) == 1 and len([v for v in unknown if actual[v] == actual[u]]) == 1:
+                        cand.append((u, ms[0]))
+            for u, m in cand:
+                if u in strings or m in strings or u in pairs or m in pairs.values():
+                    continue
+                pairs[u] = m
+                done.append(("%s.%s" % (mod, c.name), u, m))
+    if pairs:
+        for tree in trees.values():
+            apply_attribute_pairs(tree, pairs)
+    return done
+
+
+def apply_attribute_pairs(tree, pairs):
+    for n in ast.walk(tree):
+        if isinstance(n, ast.Attribute) and n.attr in pairs:
+            n.attr = pairs[n.attr]
